@@ -135,5 +135,15 @@ Definition envelope_gate (h : envelope_hdr) : res unit :=
 (* keystore mode: 0 = missing/empty, 1 = "NONE", 2 = anything else *)
 Definition keystore_gate (mode : Z) : res unit := gate (negb (mode =? 1)).
 (* key safe: identifier ok, and every locator kind in {list, pair, phrase} *)
+(* KeySafe.unseal_with_phrase: the locator pairs are tried in order; a pair whose pass2key / cipher name is not in the
+   tables of the module stops the walk with an error (it is not skipped), a supported pair the passphrase does not open is
+   skipped, the first supported pair it opens ends the walk *)
+Fixpoint vmx_pairs_gate (pairs : list (bool * bool)) : res unit :=      (* (names supported, passphrase opens it) *)
+  match pairs with
+  | [] => Err
+  | (supported, opens) :: rest =>
+      if negb supported then Err else if opens then Ok tt else vmx_pairs_gate rest
+  end.
+
 Definition keysafe_gate (ident_ok : bool) (kinds_ok : bool) : res unit :=
   do _ <- gate (negb ident_ok); gate (negb kinds_ok).
